@@ -446,6 +446,6 @@ pub fn dyn_decode_rest(ty: &Ty, b: &[u8]) -> (Out<Val>, Option<Vec<u8>>) {
     reset();
     let mut ctx = DeserializationContext::new(b);
     let (o, _) = guarded(|| with_expect(ty, || DynAny::deserialize(&mut ctx)).map(|x| x.val));
-    let rest = if o.is_panic() { None } else { Some(crate::entry::drain(&mut ctx)) };
+    let rest = if o.is_panic() { None } else { crate::entry::drain(&mut ctx) };
     (o, rest)
 }
